@@ -28,6 +28,7 @@ DRV = os.path.join(VERIF, 'lean', '.lake', 'build', 'bin', 'pbcdrv')
 
 OPS = {
     'C01': ('rt',),
+    'C07': ('unpack', 'acc', 'rt'),
     'C03': ('pack', 'gendesc'),
     'C11': ('unpack',),
     'C12': ('gendesc', 'initdump', 'init', 'unpack', 'pack', 'rt', 'acc', 'check'),
@@ -39,6 +40,7 @@ OPS = {
 DIRECT_ONLY = ('glookup',)      # operations judged by the direct oracle only (the Lean driver is not given the .proto)
 STAGES = {
     'C01': ('protoc', 'cc'),
+    'C07': ('protoc', 'cc'),
     'C03': ('protoc', 'cc'),
     'C11': ('protoc', 'cc'),
     'C12': ('protoc', 'cc'),
@@ -301,6 +303,12 @@ def evaluate(pid, run):
                         fails.append((i, 'generated code: re-serialising the parsed message gives different bytes'))
                 except Exception as ex:
                     fails.append((i, 'generated code: round-trip output does not parse as a message of this type (%s)' % str(ex)[:80]))
+        if pid == 'C07':
+            # generated code: every block comes from and returns to the allocator given; static defaults are never freed
+            d7 = kvs(a)
+            if any(d7.get(k, '0') != '0' for k in ('live', 'foreign', 'sysmalloc')):
+                fails.append((i, 'generated code: allocator accounting after parse (+free): live=%s foreign=%s sysmalloc=%s'
+                              % (d7.get('live'), d7.get('foreign'), d7.get('sysmalloc'))))
         if pid == 'C11' and op == 'unpack':
             ty = int(l.split()[1])
             if l.endswith(' X') and any(f.label == L_REQ and f.dflt is None for f in sch.msgs[ty].fields) and not a.startswith('fail'):
